@@ -937,7 +937,13 @@ class UCSReplication(MessagePassingComputation):
         self, computation: ComputationName, hosts: List[AgentName]
     ):
         self._replication_in_progress.remove([computation])
+        # An agent that accepted a replica may have left while the request
+        # was still travelling: it does not hold the replica any more.
+        lost = [h for h in hosts if h in self._removed_agents]
+        hosts = [h for h in hosts if h not in self._removed_agents]
         self._replica_hosts[computation].update(hosts)
+        if lost and computation in self.computations:
+            self.replicate(len(lost), computation)
         if self.logger.isEnabledFor(logging.INFO):
             self.logger.info(
                 f"Replica of {computation} accepted by {hosts}, "
